@@ -109,6 +109,17 @@ def _gen(e: ast.AST):
     return None
 
 
+def _neg(r: str) -> str:
+    if r in ('TRUE', 'FALSE'):
+        return 'FALSE' if r == 'TRUE' else 'TRUE'
+    if r.startswith('NOT '):
+        return r[4:]
+    head, rest = r.split('(', 1)
+    if head in ('DISJOINT', 'MEETS'):
+        return ('MEETS(' if head == 'DISJOINT' else 'DISJOINT(') + rest
+    return 'NOT ' + r
+
+
 def canon(e: ast.AST) -> str:
     """canonical relation denoted by a result expression (UNRECOGNISED forms raise)"""
     if isinstance(e, ast.Constant) and isinstance(e.value, bool):
@@ -130,6 +141,12 @@ def canon(e: ast.AST) -> str:
     if isinstance(e, ast.Call) and isinstance(e.func, ast.Attribute) and e.func.attr == 'issubset' and len(e.args) == 1 \
             and isinstance(e.args[0], (ast.Tuple, ast.Set, ast.List)):
         return f"SUBSET({text(e.func.value)}, {{{', '.join(sorted(text(x) for x in e.args[0].elts))}}})"
+    if isinstance(e, ast.Call) and isinstance(e.func, ast.Attribute) and e.func.attr == 'isdisjoint' and len(e.args) == 1:
+        if isinstance(e.args[0], (ast.Tuple, ast.Set, ast.List)):
+            return f"DISJOINT({text(e.func.value)}, {{{', '.join(sorted(text(x) for x in e.args[0].elts))}}})"
+        return f"DISJOINT({text(e.func.value)}, {text(e.args[0])})"
+    if isinstance(e, ast.UnaryOp) and isinstance(e.op, ast.Not):
+        return _neg(canon(e.operand))
     if isinstance(e, ast.BoolOp) and isinstance(e.op, ast.And) and all(isinstance(v, ast.Compare) and len(v.ops) == 1 for v in e.values):
         ins = [v for v in e.values if isinstance(v.ops[0], ast.In)]
         nins = [v for v in e.values if isinstance(v.ops[0], ast.NotIn)]
@@ -294,8 +311,7 @@ def rule_c(ctx: Ctx, rule: str = 'C16.c') -> None:
                 'expression, put into the vocabulary SUBSET / DISJOINT / MEMBER, must be the inclusion of the denoted sets.')
 
 
-def rule_d(ctx: Ctx) -> None:
-    rule = 'C16.d'
+def rule_d(ctx: Ctx, rule: str = 'C16.d') -> None:
     c = ctx.idx.cls('xmlschema.validators.wildcards.XsdAnyElement')
     f = c.methods.get('is_overlap')
     if f is None:
@@ -320,7 +336,7 @@ def rule_d(ctx: Ctx) -> None:
             return ['TRUE']
         return ['MEETS(other.namespace, self.namespace)']
     _pair_table(ctx, rule, f, preset, spec, 'true exactly when the two denoted sets share a namespace', 17)
-    ctx.explain('C16.d: XsdAnyElement.is_overlap folded for the pairs of constraint kinds; the returned expression must state that the '
+    ctx.explain(f'{rule}: XsdAnyElement.is_overlap folded for the pairs of constraint kinds; the returned expression must state that the '
                 'denoted sets intersect.')
 
 
